@@ -11,10 +11,45 @@ PROP = 'C14'
 LEAN_MODULES = ['Glom.Props.C14']
 FACT_FILES = ['TFacts', 'C14Facts']
 READY = True
-MANIFEST = dict(text="(filled in below)", note="", technique="", ref='DESIGN.md §3 C14')
-RULE = ''
-TRUSTED = []
-ASSUMPTIONS = []
+MANIFEST = dict(
+    text="Lean 4 theorems about a literal model of the wildcard code on the shared heap kernel (identity = "
+         "address, sharing and cycles representable): `_extend_children` yields exactly the children "
+         "(mapping values, sequence / set items, attribute values; raising accesses tolerated) [c14_star]; "
+         "the `'X'` loop — a growing list walked by index with an id()-visited set seeded with the root — is a "
+         "total function by well-founded recursion on (unexpanded addresses, unwalked items) for EVERY heap, "
+         "cyclic or not, computes the queue breadth-first traversal [c14_starstar_bfs], expands every "
+         "container at most once and at most |heap|+1 containers [c14_expand_once, c14_terminates]; the "
+         "evaluation of any path with any number of wildcards at any position equals 'map the remaining "
+         "steps over the entries, keep the successes' and never fails after a wildcard [c14_tail_independent]; "
+         "k wildcards give k list levels [c14_nesting]; `_apply_for_each` applies Assign/Delete to exactly "
+         "the entries, in order [c14_broadcast]; checker theorem c14_model_checks; per-run facts obligation "
+         "by `decide` on the decision shapes regenerated from /repo's AST; model tied to the code by "
+         "differential execution of real glom / assign / delete calls against the compiled Lean driver "
+         "(entries compared by address, heap snapshots after mutation, time budget against hangs).",
+    note="trusted: Lean kernel + {propext, Classical.choice, Quot.sound}; extractor (extract/facts/c14.py); "
+         "harness/driver; CPython's dict / list / attribute access as modelled in Glom/Py/Access.lean; which "
+         "handler the default registry picks per class (C13's subject) enters as the functions keysH / getH "
+         "/ iterH / assignH of the class's MRO and two interpreter facts per class, validated on every "
+         "case; default registry only; set iteration order is observed by the harness and given to the "
+         "model; assigned values are immediate values; mutation paths end in a plain segment.",
+    technique='Lean 4 well-founded definition (termination for every heap) + refinement to a breadth-first '
+              'reference + facts obligation by decide + differential correspondence',
+    ref='DESIGN.md §3 C14')
+RULE = ('type-directed: a target is generated as a heap graph of dict / OrderedDict / list / tuple / set / '
+        'frozenset / attribute objects and their subclasses (with and without __dict__), containers whose '
+        'element access raises (RDict.__getitem__, RList.__iter__, RObj.__getattribute__), strings and other '
+        'immediate values, with shared sub-objects (DAG) and back edges (cycles, also through the root); a '
+        'path with 0-3 wildcards (`*` / `**`) at every position among 0-3 plain segments is derived by walking '
+        'the graph (mostly valid; absent keys, non-numeric indexes, `bad` names planted), spelled as dotted '
+        'text, Path(...) with T.__star__() / T.__starstar__() parts, a mixture with T steps, or one T chain; '
+        '22% of the cases are Assign / Delete through the wildcards; fixed cases cover the self-containing '
+        'list, shared children, strings and sets. entries are compared by address, scalars by value; a 3 s '
+        'alarm turns a hang into a reported case. non-trivial = the path has a wildcard and does not fail '
+        'before it; distinct = distinct (heap, target, spelling, mutation)')
+TRUSTED = ['handler choice of the default registry per class is an environment function validated on every case '
+           '(C13 proves the registry)', 'set iteration order is observed, not modelled']
+ASSUMPTIONS = ['default registry', 'PATH_STAR = True', 'assigned values are immediate values',
+               'Assign/Delete paths end in a plain (non-T) segment']
 
 
 # ---------------------------------------------------------------- extra target classes
@@ -152,6 +187,8 @@ class HeapGen:
         if mutable:
             self.open_mut.append(a)
         n = r.choice([0, 1, 2, 2, 3])
+        if cell['c'] in ('tuple', 'frozenset') and n == 0:
+            n = 1          # () and frozenset() are interned singletons: no identity of their own
         if lay == 'dict':
             keys = r.sample(NAMES + [0, 1, 'z'], n)
             cell['v'] = [[jval(k), self.node(depth + 1)] for k in keys]
@@ -412,6 +449,14 @@ def run_impl(case):
             order = [pyobjs.enc_val(x, lambda v: None) for x in objs[a]]
             cell['v'] = order
     ids = {id(o): a for a, o in enumerate(objs)}
+    if len(ids) < len(objs):
+        # two cells decoded to one object (interned empty tuple / frozenset): not a heap the kernel
+        # can describe; the driver skips it
+        out = dict(case)
+        out['heap'] = heap
+        out['classes'] = class_info()
+        out['impl'] = 'skip'
+        return out
     target = dv(case['target'])
     spec, nw = build_spec(case['spelling'], dv)
 
